@@ -1,6 +1,7 @@
 """Which bounded instances / drivers decide which property (DESIGN.md section 9)."""
 
 LEVEL = {"C01": "exploration"}
+JOBS_BASE = {}
 
 HDR_INV = ["InvIff", "InvValue", "InvIvPiv", "InvDup", "InvUnprot", "InvProt", "Emit"]
 
@@ -18,7 +19,31 @@ def struct_job(fam):
                      "plus implementation-level injectivity over every structure produced"}]
 
 
+def derived(names):
+    """the decode instances re-used as sources of accepted inputs (vectors re-interpreted by `replay --derive`)"""
+    out = []
+    for n in names:
+        j = dict([x for x in sum(JOBS_BASE.values(), []) if x["module"] == n][0])
+        j["derive"] = True
+        out.append(j)
+    return out
+
+
 JOBS = {
+    "C07": [
+        {"module": "MC_FixedPoint", "spec": "Spec", "invariants": ["InvAccepted", "InvFixedPoint", "InvF7", "Emit"],
+         "quick": {"timeout": 300}, "thorough": {"timeout": 1200},
+         "rule": "accepted items of every type x 7 encoding strategies x tagged/untagged, hand-made wires for what re-encoding changes, and every "
+                 "accepted wire of the decode instances (derived); each case runs decode/encode/decode/encode; distinct_nontrivial = distinct "
+                 "accepted (type, wire) pairs"},
+    ],
+    "C13": [
+        {"module": "MC_OneItem", "spec": "Spec", "invariants": ["InvAccepted", "InvPrefix", "InvSuffix", "InvPrefixFree", "InvProtInner", "Emit"],
+         "quick": {"timeout": 300}, "thorough": {"timeout": 1200},
+         "rule": "accepted items of every type x 4 encodings: every cut point, 7 suffixes, byte-vs-Value API agreement in both directions; the "
+                 "header map inside a protected bstr likewise; plus every accepted wire of the decode instances (derived); distinct_nontrivial = "
+                 "distinct accepted (type, wire) pairs"},
+    ],
     "C11": [
         {"module": "MC_Encode", "spec": "Spec", "invariants": ["InvWFMem", "InvEncode", "InvDecodeBack", "Emit"],
          "quick": {"constants": {"Full": "FALSE"}, "timeout": 300},
@@ -128,3 +153,7 @@ JOBS = {
                  "non-trivial = a map or array with at least one entry"},
     ],
 }
+
+JOBS_BASE.update({k: v for k, v in JOBS.items()})
+for _p in ("C07", "C13"):
+    JOBS[_p] = JOBS[_p] + derived(["MC_HeaderDecode", "MC_MsgDecode", "MC_KeyDecode", "MC_Cwt", "MC_Kdf"] + (["MC_Tag"] if _p == "C07" else []))
